@@ -15,7 +15,7 @@ from typing import Dict, List, Optional, Set, Tuple
 from ..core import AnalysisError, Func, Repo, dotted, norm, parents
 from ..cfg import CFG
 from ..report import Check
-from ..util import call_name, calls_in, enclosing_trys, handler_names, const_str
+from ..util import call_name, calls_in, enclosing_trys, handler_names, const_str, names_assigned_from
 
 COL = 'pydoctor.epydoc.markup._pyval_repr.PyvalColorizer'
 DELIM = 'pydoctor.epydoc.markup._pyval_repr._OperatorDelimiter'
@@ -157,7 +157,7 @@ def run(repo: Repo, chk: Check, thorough: bool = False) -> None:
                 if '.right' in txt or '.left' in txt:
                     side = True
                     how = f'identity test `{txt}`'
-            if isinstance(n, ast.Compare) and any(isinstance(o, ast.LtE) for o in n.ops) and 'precedence' in norm(n):
+            if isinstance(n, ast.Compare) and any(isinstance(o, ast.LtE) for o in n.ops) and 'recedence' in norm(n):
                 side = True
                 how = f'non-strict comparison `{norm(n)}` (equal precedence always parenthesised)'
     if not side:
@@ -190,8 +190,11 @@ def run(repo: Repo, chk: Check, thorough: bool = False) -> None:
     chk.ob('R15.3', f'{DELIM}.__init__ :: nested boolean operators', booltest,
            'the decision depends on an isinstance(parent, ast.BoolOp) test' if booltest else 'no case for a BoolOp parent', init.loc)
     # the comparison itself: strictly-lower child precedence enables parentheses
+    # child precedence: the local assigned from get_op_precedence(node.op); parent precedence: from get_op_precedence(parent.op)
+    childv = names_assigned_from(init, lambda v: isinstance(v, ast.Call) and call_name(v) == 'get_op_precedence' and norm(v.args[0]) == 'node.op')
+    parentv = names_assigned_from(init, lambda v: isinstance(v, ast.Call) and call_name(v) == 'get_op_precedence' and norm(v.args[0]) != 'node.op')
     cmp_ok = any(isinstance(n, ast.Compare) and len(n.ops) == 1 and isinstance(n.ops[0], (ast.Lt, ast.LtE)) and
-                 norm(n.left) == 'precedence' and 'parent_precedence' in norm(n.comparators[0]) for x in sl for n in ast.walk(x))
+                 norm(n.left) in childv and norm(n.comparators[0]) in parentv for x in sl for n in ast.walk(x))
     chk.ob('R15.3', f'{DELIM}.__init__ :: parentheses when the child binds weaker than its parent', cmp_ok,
            '`precedence < parent_precedence` enables the parentheses' if cmp_ok else 'comparison direction changed', init.loc)
     # the default parent precedence (non operator parents) is the highest unless set explicitly
@@ -202,8 +205,9 @@ def run(repo: Repo, chk: Check, thorough: bool = False) -> None:
            'default precedence for non-operator parents (subscript value, call function, attribute base) is no longer the highest', init.loc)
     # a precedence chosen from the *type* of a non-operator parent cannot tell its children apart (subscripted value vs index,
     # called function vs argument): such an assignment must be control dependent on the position of the node in its parent
+    parentv2 = names_assigned_from(init, lambda v: isinstance(v, ast.Call) and call_name(v) == 'get_op_precedence' and norm(v.args[0]) != 'node.op')
     for a in [n for n in init.walk() if isinstance(n, (ast.Assign, ast.AugAssign)) and
-              any(isinstance(t, ast.Name) and t.id == 'parent_precedence' for t in (n.targets if isinstance(n, ast.Assign) else [n.target]))]:
+              any(isinstance(t, ast.Name) and t.id in parentv2 for t in (n.targets if isinstance(n, ast.Assign) else [n.target]))]:
         txt = norm(a.value)
         if isinstance(a, ast.AugAssign) or 'get_op_precedence' in txt or 'explicit_precedence' in txt:
             continue
@@ -268,8 +272,9 @@ def run(repo: Repo, chk: Check, thorough: bool = False) -> None:
                 cfg = CFG(colz)
                 ell = [cfg.stmt_of(c) for st in h.body for c in ast.walk(st) if isinstance(c, ast.Call) and call_name(c) == 'append'
                        and c.args and 'ELLIPSIS' in norm(c.args[0])]
+                flagv = _complete_flag(colz)
                 inc = [n for st in h.body for n in ast.walk(st) if isinstance(n, ast.Assign) and
-                       any(isinstance(x, ast.Name) and x.id == 'is_complete' for x in n.targets) and
+                       any(isinstance(x, ast.Name) and x.id == flagv for x in n.targets) and
                        isinstance(n.value, ast.Constant) and n.value.value is False]
                 after = cfg.successors(t)
                 # every path through the handler appends the ellipsis and marks the result incomplete
@@ -281,7 +286,8 @@ def run(repo: Repo, chk: Check, thorough: bool = False) -> None:
                     'a path through the _Maxlines/_Linebreak handler does not append the ellipsis marker or leaves is_complete True'
     chk.ob('R15.5', f'{COL}.colorize :: truncated output is marked', okm, detail, colz.loc)
     rets = [n for n in colz.walk() if isinstance(n, ast.Return) and isinstance(n.value, ast.Call)]
-    ok = bool(rets) and all(any(isinstance(a, ast.Name) and a.id == 'is_complete' for a in r.value.args) for r in rets)  # type: ignore[attr-defined]
+    ok = bool(rets) and _complete_flag(colz) is not None and \
+        all(any(isinstance(a, ast.Name) and a.id == _complete_flag(colz) for a in r.value.args) for r in rets)  # type: ignore[attr-defined]
     chk.ob('R15.5', f'{COL}.colorize :: completeness flag handed to the result', ok,
            'ColorizedPyvalRepr(document, is_complete, warnings)' if ok else 'is_complete is not passed to the result', colz.loc)
     outp = repo.func(f'{COL}._output')
@@ -344,6 +350,15 @@ def check_control_escape(repo: Repo, chk: Check, rule: str) -> None:
                f'replacement {norm(repl)[:50]} writes a two-digit hex escape' if hexok else
                f'replacement {norm(repl)[:60]} does not write the two-digit *hex* code after \\x: e.g. \\x1b would be displayed as another character',
                repo.loc(f.mod, c))
+
+
+def _complete_flag(colz: Func) -> Optional[str]:
+    """The local that is passed as second argument of the ColorizedPyvalRepr(...) result (the completeness flag)."""
+    for n in colz.walk():
+        if isinstance(n, ast.Return) and isinstance(n.value, ast.Call) and call_name(n.value) == 'ColorizedPyvalRepr' and len(n.value.args) >= 2 \
+                and isinstance(n.value.args[1], ast.Name):
+            return n.value.args[1].id
+    return None
 
 
 def _next_after(f: Func, t: ast.stmt) -> Optional[ast.stmt]:
